@@ -171,7 +171,7 @@ PROPS = {
     ],
   },
   'C09': {
-    'rule': 'cases = (single-slot mailbox on a full/empty lock: P,C in 1..5, items, quotas, yields, optional inspector thread using plain felock_lock/unlock; W in 1..8; schedule); '
+    'rule': 'cases = (single-slot mailbox on a full/empty lock: P,C in 1..5, items, quotas, yields, optional inspector thread using plain felock_lock and releasing with unlock or mark_and_signal(current status), 0..4 readFF readers that leave the variable full and a closing write that reaches them one mark_and_signal at a time; W in 1..8; schedule); '
             'non-trivial = a participant blocked AND (a waiter resumed on another worker OR the token moved inside the enqueue..unlock window); distinct = hash of (program, schedule, seed)',
     'assumptions': COMMON_ASSUME,
     'stages': [
@@ -212,7 +212,7 @@ PROPS = {
     ],
   },
   'C05': {
-    'rule': 'cases = (program bytes decoded into bounded-buffer / gate / turnstile condvar programs, W in 1..8, schedule bytes + seeded tail) generated by rapidcheck; '
+    'rule': 'cases = (program bytes decoded into bounded-buffer / gate / token-gate / turnstile condvar programs, notifications issued under the mutex or (one case in three) after releasing it, W in 1..8, schedule bytes + seeded tail) generated by rapidcheck; '
             'non-trivial = a cond_wait really blocked AND (the token was handed to another worker inside the enqueue..unlock window of a blocking call OR a waiter was resumed on a different worker); '
             'distinct = distinct hash of (decoded program, schedule bytes, seed)',
     'assumptions': COMMON_ASSUME,
